@@ -930,7 +930,7 @@ def typed_ops(r, root, classes):
   ops.append(('mids.clear', lambda: root.sym_getattr('mids').clear()))
   return ops
 
-def priming_sweep(ctx, rng, deadline, stride=1):
+def priming_sweep(ctx, rng, deadline, stride=1, only=None):
   """typed trees of depth >= 3 (Object in Object in Object, Dict with a value spec, List in Dict in Object) x field depth x silent
   mutation path x which nodes hold which derived fact before the mutation; afterwards every node is compared with the rebuilt tree."""
   import random
@@ -969,6 +969,8 @@ def priming_sweep(ctx, rng, deadline, stride=1):
     head = [ci for ci in order if prio(ci) == 0]
     tail = [ci for ci in order if prio(ci) == 1]
     order = head + tail[::stride]
+  if only is not None:
+    order = [only] if 0 <= only < len(combos) else []
   expected_cache = {}
   for ci in order:
     ti, vi, mode, who, kind = combos[ci]
@@ -1335,6 +1337,16 @@ def run(ctx):
 def replay(ctx, rp):
   from harness.lib import tr as trlib
   c = rp['case']
+  if isinstance(c, dict) and 'priming' in c:
+    import random
+    class _P:
+      def __init__(self): self.h = []; self.extra = {}
+      def hit(self, sig, what, case): self.h.append((sig, what))
+      def hist(self, *a): pass
+    pc = _P(); priming_sweep(pc, random.Random(0), time.time() + 600, stride=1, only=c['priming'])
+    for h in pc.h:
+      print('  still fails:', h[0], '|', h[1])
+    return not pc.h
   if isinstance(c, dict) and c.get('scope_check'):
     class _C:
       def __init__(self): self.h = []; self.extra = {}
